@@ -2,6 +2,7 @@
 import json
 import os
 import random
+import re
 import zlib
 import sys
 
@@ -11,10 +12,20 @@ import vlib
 SLOW_FIXTURES = ('too_many_module_symbols', 'limit/', 'benchmark', 'stack_overflow', 'loop_too_large')
 
 
+# fixtures whose outcome is not a function of the program text: wall clock (`assert(clock() - start > 0)` fails whenever two
+# readings coincide), random numbers, standard input, environment. A differential verdict on them would be a coin toss.
+_NONDETERMINISTIC = re.compile(r'\bclock\s*\(|\brand\s*\(|\bstdin\b|import\s+std\.env|\benv\.')
+
+
 def fixture_list(expect=None, skip_slow=True):
     out = []
     for p, e in vlib.fixtures(expect):
         if skip_slow and any(s in p for s in SLOW_FIXTURES):
+            continue
+        try:
+            if _NONDETERMINISTIC.search(open(p, encoding='utf-8', errors='replace').read()):
+                continue
+        except OSError:
             continue
         out.append((p, e))
     return out
